@@ -140,7 +140,13 @@ def start_global_contexts(global_ctx_only: str | None = None) -> None:
         if idx < 0 or global_ctx_name[0:idx] not in {"file", "apps", "modules", "scripts"}:
             continue
         if global_ctx_only is not None and global_ctx_only != "*":
-            if global_ctx_name != global_ctx_only and not global_ctx_name.startswith(global_ctx_only + "."):
+            if (
+                global_ctx_name != global_ctx_only
+                and not global_ctx_name.startswith(global_ctx_only + ".")
+                and global_ctx.auto_start
+            ):
+                # already running; contexts that a reload by name re-ran because they import
+                # the reloaded one are not started yet and must be started too
                 continue
         global_ctx.set_auto_start(True)
         start_list.append(global_ctx)
